@@ -31,6 +31,8 @@ def check_create_arcs(chk, rep, repo):
     w = graph_walk(repo, "KNNSubgraph", "create_arcs")
     fn = w.entry
     G = ("self",)
+    from ..common import require_scalar_fragment
+    require_scalar_fragment(w, w.entry.qual)
     scans = find_knn_scans(w)
     if not scans:
         from ..rules_knn import report_missing_scan
